@@ -678,6 +678,11 @@ theorem fail_aborts (env : Env) (cfg : Cfg) (ans : Bytes) (w : Wire) (pos : Nat)
   have := List.mem_range.mp hi
   omega
 
+/-- a Content-Type that was already in the header map when the handler failed plays no part: the
+    response carries the formatter's (`http.Header.Set` replaces) -/
+theorem earlier_content_type_replaced (pre : Option Bytes) (env : Env) (cfg : Cfg) (ans : Bytes) (w : Wire)
+    (pos : Nat) (call : Call) : failH pre env cfg ans w pos call = fail env cfg ans w pos call := rfl
+
 /-- exactly one response body is written -/
 theorem exactly_one_response (env : Env) (cfg : Cfg) (ans : Bytes) (pos : Nat) (call : Call) :
     (fail env cfg ans .recorder pos call).bodies.length = 1 := rfl
